@@ -188,6 +188,12 @@ func generate(run *vx.Run, exec func(string)) {
 		c.async = (g.n/11)%4 == 0 // every fourth case goes through SendReqAsync
 		g.emit(c, s)
 	}
+	// 0. read-ts validation family: every command type × ts class × validation on/off (one op per case)
+	generateValidate(func(op string) {
+		g.n++
+		run.Comment(fmt.Sprintf("case %d", g.n))
+		exec(op)
+	})
 	// 1. exhaustive scripts (the last element is the forever answer)
 	k := 0
 	for L := 0; L <= coreRot; L++ {
